@@ -142,6 +142,16 @@ CHECKS = {
              "orientation through the similarity).",
         technique="TLA+ spec Links.tla/Lattice.tla: TLC-enumerated exact instances; instance evaluation under similarity conjugation",
         ref="DESIGN.md section 4 C17"),
+    "C15": dict(
+        text="Smooth.tla defines boundary points (points of a cell side owned by exactly one cell) and edge-neighbours from "
+             "the cells alone, for structured quad/hex grids and unstructured O-grids, and TLC checks valences; the real "
+             "SketchSmoother/MeshSmoother is run on each topology (random similarity, jittered interior, fixed sets by index "
+             "or position, 1 or 300 sweeps) and TLC judges each recorded run: moved points are free interior points, every "
+             "free point ends at its neighbours' average; exact one-sweep average, regular-lattice recovery and copy-back "
+             "consistency for every face/block sharing a point.",
+        note="Convergence judged after 300 sweeps to 1e-6 of the cell size on grids up to 4x4 / 2x2x2 (quick).",
+        technique="TLA+ spec Smooth.tla: declarative boundary/neighbour relations, TLC generator of topologies + TLC trace acceptor",
+        ref="DESIGN.md section 4 C15"),
 }
 
 def main():
